@@ -398,3 +398,26 @@ def read_corpus(pid, name="cases.txt"):
     if not os.path.exists(p):
         return []
     return [l.rstrip("\n") for l in open(p) if l.strip() and not l.startswith("#")]
+
+
+def write_gen(name, content):
+    """Writes coq/gen/<name>.v (logical path BurrowGen.<name>) if its content changed.  Generated tables are
+    regenerated from /repo on every run by the translators; Coq then re-checks the table obligations."""
+    with Lock("coq"):
+        gdir = os.path.join(COQ, "gen")
+        os.makedirs(gdir, exist_ok=True)
+        path = os.path.join(gdir, name + ".v")
+        if not os.path.exists(path) or open(path).read() != content:
+            open(path, "w").write(content)
+        return path
+
+
+def run_translator(name, args=(), timeout=600):
+    """Runs the Go translator /verif/translator/<name> (stdlib-only module) and returns its stdout."""
+    tdir = os.path.join(VERIF, "translator", name)
+    out = os.path.join(BUILD, "translator", name)
+    os.makedirs(os.path.dirname(out), exist_ok=True)
+    with Lock("translator_" + name):
+        sh(["go", "build", "-o", out, "."], cwd=tdir, env=GO_ENV, timeout=timeout)
+    p = sh([out] + list(args), cwd=REPO, env=GO_ENV, timeout=timeout)
+    return p.stdout
